@@ -1,6 +1,7 @@
 //! fluteh - harness running the implementation (/repo working tree) and writing traces
 //! that the extracted Coq models recompute.  One subcommand per property family.
 mod c07;
+mod c08;
 mod util;
 
 fn main() {
@@ -13,6 +14,8 @@ fn main() {
     let args = util::parse_args(&argv[2..]);
     match argv[1].as_str() {
         "part" => c07::run(&args),
+        "encode" => c08::run(&args, false),
+        "source" => c08::run(&args, true),
         other => {
             eprintln!("unknown subcommand {}", other);
             std::process::exit(2);
